@@ -216,3 +216,24 @@ Proof.
   - inversion H; subst. unfold query. now rewrite Hc.
   - destruct (sstep s l) eqn:E; [|discriminate]. eapply IH; [eapply closed_step; eauto|exact H].
 Qed.
+
+(* each shutdown call -- in particular eventDebouncer.stop of the node-event and of the schema-event
+   debouncer, and refreshDebouncer.stop -- is made at most once, however Close is called *)
+Definition comp_dec (a b : comp) : {a = b} + {a <> b}.
+Proof. decide equality. Defined.
+
+Lemma close_order_nodup : NoDup close_order.
+Proof. unfold close_order. repeat constructor; simpl; intuition discriminate. Qed.
+
+Lemma NoDup_firstn {A} n (l : list A) : NoDup l -> NoDup (firstn n l).
+Proof.
+  revert l; induction n as [|n IH]; intros [|x l] H; simpl; try constructor.
+  - inversion H; subst. intro Hin. apply H2. eapply In_firstn; eauto.
+  - inversion H; subst. auto.
+Qed.
+
+Theorem each_stop_once_lemma ls s c : srun sess_init ls = Some s -> (count_occ comp_dec (s_log s) c <= 1)%nat.
+Proof.
+  intro H. destruct (close_once_lemma _ _ H) as [[k Hk] _]. rewrite Hk.
+  apply NoDup_count_occ. apply NoDup_firstn. apply close_order_nodup.
+Qed.
